@@ -233,12 +233,20 @@ def corruption_selftest(res, limit=10):
     return out
 
 
-def encoding_runner(prop, family, directions, opts=None, audits=(), large=frozenset()):
+def encoding_runner(prop, family, directions, opts=None, audits=(), large=frozenset(), mixed=()):
     def run(tier, seed, replay=None, procs=16):
         if replay:
             problems = [dict(replay["problem"], id=1)]
         else:
             problems = family(tier, seed)
+            if mixed:
+                # cross-feature problems (families/mixed.py): constraint classes of several properties in one
+                # problem, at least one of this property's own group, V(P) still enumerated completely
+                from families import mixed as F_mixed
+                extra = []
+                for focus in mixed:
+                    extra += F_mixed.fam_mixed(tier, seed, focus, n=None if len(mixed) == 1 else (80 if tier == "thorough" else 12))
+                problems = F_tasks.number([json.loads(json.dumps(q)) for q in problems + extra])
         o = dict(opts or {})
         o["seed"] = seed
         if tier == "thorough":
@@ -293,18 +301,20 @@ RUNNERS = {}
 def register():
     from families import tasks, resources, optional, buffers, logic, indicators
     S, Cm = "sound", "complete"
-    RUNNERS["C01"] = encoding_runner("C01", tasks.fam_C01, {S})
-    RUNNERS["C02"] = encoding_runner("C02", tasks.fam_C02, {S}, audits=[("MC_Timeline_free.cfg", 40)], large=frozenset({S}))
-    RUNNERS["C03"] = encoding_runner("C03", tasks.fam_C03, {S})
-    RUNNERS["C04"] = encoding_runner("C04", resources.fam_C04, {S}, audits=[("MC_Timeline_decl.cfg", None)])
-    RUNNERS["C06"] = encoding_runner("C06", optional.fam_C06, {S, Cm, "buffers", "indicators"})
+    RUNNERS["C01"] = encoding_runner("C01", tasks.fam_C01, {S}, mixed=("basic",))
+    RUNNERS["C02"] = encoding_runner("C02", tasks.fam_C02, {S}, audits=[("MC_Timeline_free.cfg", 40)], large=frozenset({S}),
+                                     mixed=("basic",))
+    RUNNERS["C03"] = encoding_runner("C03", tasks.fam_C03, {S}, mixed=("task",))
+    RUNNERS["C04"] = encoding_runner("C04", resources.fam_C04, {S}, audits=[("MC_Timeline_decl.cfg", None)], mixed=("resource",))
+    RUNNERS["C06"] = encoding_runner("C06", optional.fam_C06, {S, Cm, "buffers", "indicators"}, mixed=("optional",))
     RUNNERS["C08"] = encoding_runner("C08", indicators.fam_C08, {S, "indicators"})
-    RUNNERS["C09"] = encoding_runner("C09", buffers.fam_C09, {S, "buffers"}, audits=[("MC_Timeline_free.cfg", 40)])
-    RUNNERS["C10"] = encoding_runner("C10", logic.fam_C10, {S, Cm})
+    RUNNERS["C09"] = encoding_runner("C09", buffers.fam_C09, {S, "buffers"}, audits=[("MC_Timeline_free.cfg", 40)], mixed=("buffer",))
+    RUNNERS["C10"] = encoding_runner("C10", logic.fam_C10, {S, Cm}, mixed=("logic",))
     RUNNERS["C05"] = encoding_runner(
         "C05", union_family([tasks.fam_C01, tasks.fam_C02, tasks.fam_C03, resources.fam_C04,
                              optional.fam_C06, buffers.fam_C09, logic.fam_C10], 150),
-        {Cm}, {"soundness": False, "replay_per_problem": 2}, large=frozenset({Cm}))
+        {Cm}, {"soundness": False, "replay_per_problem": 2}, large=frozenset({Cm}),
+        mixed=("basic", "task", "resource", "optional", "buffer", "logic"))
 
 
 register()
